@@ -3,7 +3,7 @@ from .. import core, gen, build
 
 RULE = ("random copy_surface / blend_surface (28 modes) / blend_surface_with_alpha calls on destinations with and without a "
         "transform, a clip rectangle and an open layer set (all of which must be ignored): destination and source "
-        "sizes 0..6 (sometimes up to 40), src_rect inside/overlapping/outside/empty/inverted incl. far away (up to "
+        "sizes 0..6 (sometimes up to 40, a few up to 300), src_rect inside/overlapping/outside/empty/inverted incl. far away (up to "
         "the ends of the i32 range), dst negative/inside/beyond, premultiplied random pixels; non-trivial = at least one destination pixel "
         "is written AND (src_rect.min != (0,0) or the block is cut by a source or destination edge); distinct by "
         "case text. thorough adds the exhaustive enumeration of all rectangles in -1..3 and offsets in -2..3 on "
@@ -16,7 +16,9 @@ def size(rng):
         return 0
     if c < 0.85:
         return rng.randrange(1, 7)
-    return rng.randrange(7, 41)
+    if c < 0.97:
+        return rng.randrange(7, 41)
+    return rng.choice([64, 65, 129, 257, 300])        # past 64 / 128 / 256 pixels in one direction
 
 
 def coord(rng, n):
